@@ -118,7 +118,7 @@ def run(ctx):
     libdir = ctx.lib()
     c06.layout_obligation(ctx)
     ctx.regen("translate_descriptors.py")
-    proved = ctx.prove("C07", extra_targets=["C06/Run.vo"])
+    proved = ctx.prove("C07", extra_targets=["C06/Run.vo", "C07/Attach.vo"])
     rebound = L.load(libdir)
     ft = L.field_types(rebound)
     E = ft["end"][0]
@@ -262,6 +262,50 @@ def _run(ctx, libdir, rebound, ft, E, rng, tmpd):
                     r1 = c06.run_jobs(libdir, [[job]], timeout=60)[0]
                     res_res.append(r1[0] if isinstance(r1, list) else {"died": r1[0], "stderr": r1[1]})
         coq_out = fut_coq.result()
+
+    # ---- attach logic (reb_simulation_save_to_file_{interval,step,walltime}): model vs library on the cadence state and file size
+    ar = c06.run_jobs(libdir, [[{"kind": "attach", "presteps": rng.randint(0, 5), "restart_from": sorted(rng.sample(range(0, 4), 2))}]], timeout=120)[0]
+    obs = ar[0].get("obs", []) if isinstance(ar, list) else []
+    body = L.PRELUDE + "From RV Require Import C07.Attach.\n"
+    body += "Definition sl (s : sa_state) : list N := [a_interval s; a_walltime s; a_step s; a_next s; a_next_step s; a_t s; a_wall s; a_steps_done s].\n"
+    terms = []
+    for o in obs:
+        b = "(mkSA %s)" % " ".join(str(x) for x in o["before"])
+        terms.append("(sl (attach_%s %d %s), %s)" % (o["mode"], o["val"], b, L.nl(o["after"])))
+    body += "Eval vm_compute in (bad_bytes [%s]).\n" % ";".join(terms)
+    aok, aout = vlib.coq_eval("c07_attach", body)
+    abad = vlib.parse_coq_list_nat(aout) if aok else None
+    size_bad = [i for i, o in enumerate(obs) if o["size_before"] != o["size_after"]]
+    ctx.obligation("correspondence:C07 attach model == library on %d attach calls (auto_interval/auto_walltime/auto_step/next/next_step; no file write)" % len(obs),
+                   len(obs) >= 10 and abad == [] and not size_bad,
+                   "mismatching attach observations %s %s %s" % (abad, size_bad, [obs[i] for i in (abad or [])[:2]] if abad else (aout[-300:] if not aok else str(ar)[:300])))
+    ctx.traces += len(obs) if abad == [] else 0
+
+    # ---- automatic cadence x crash points x 1-3 crash/restart cycles: restarted archive == uninterrupted archive
+    aj = []
+    for mode, val in (("step", 25), ("interval", 25 * 0.1313), ("step", 7), ("interval", 9.37 * 0.1313)):
+        n_snap = 230 // 25 if val in (25, 25 * 0.1313) else 230 // 9
+        for ncyc in (1, 2, 3):
+            for rep in range(ctx.scale(1, 6)):
+                js = sorted(rng.sample(range(1, n_snap), ncyc))
+                aj.append({"kind": "autocrash", "mode": mode, "val": val, "nsteps": 230,
+                           "crashes": [[j, rng.choice([0.0, 0.005, 0.012, rng.random(), rng.random(), 0.985, 0.999])] for j in js]})
+    ares = c06.run_jobs(libdir, [[j] for j in aj], timeout=200)
+    abadl = []
+    for job, r in zip(aj, ares):
+        r0 = r[0] if isinstance(r, list) else {"died": r[0], "stderr": r[1]}
+        ctx.case(key=("autocrash", job["mode"], job["val"], tuple(tuple(x) for x in job["crashes"])),
+                 sample={"autocrash": job, "cycles": r0.get("cycles")} if len(ctx.samples) < 5 else None)
+        if not (r0.get("times_equal") and r0.get("hashes_equal") and r0.get("n") == r0.get("ref_n")):
+            abadl.append((job, r0))
+    if abadl:
+        job, r0 = min(abadl, key=lambda jr: len(jr[0]["crashes"]))
+        ctx.violation("restart-cadence-%s" % job["mode"], {"job": job, "result": {k: v for k, v in r0.items() if k not in ("ref_t", "t")},
+                                                            "ref_t_bits": r0.get("ref_t"), "t_bits": r0.get("t"), "how": "tools/c06_driver.py job_autocrash", "n_cases": len(abadl)}, True,
+                      "property=C07 %s cadence: after %d crash/restart cycle(s) (crash in the write of snapshot %s, restart from the last intact snapshot, re-attach with the same "
+                      "cadence, run on) the archive has %s snapshots, the uninterrupted run %s; times equal: %s, contents equal: %s"
+                      % (job["mode"], len(job["crashes"]), [c[0] for c in job["crashes"]], r0.get("n"), r0.get("ref_n"), r0.get("times_equal"), r0.get("hashes_equal")))
+    ctx.extra["auto_cadence_crash_restart_jobs"] = len(aj)
 
     # ---- restart_spoof_refuted replayed on the real library (always run)
     sp = c06.run_jobs(libdir, [[{"kind": "spoof", "cut_delta": 0}], [{"kind": "spoof", "cut_delta": -1}]], timeout=120)
